@@ -18,12 +18,19 @@ func main() {
 	explain := flag.Bool("explain", false, "explain failed obligations conjunct by conjunct")
 	only := flag.String("only", "", "explain only obligations whose name contains this")
 	maxShow := flag.Int("max", 1000, "max failed obligations to print")
+	paramsDump := flag.Bool("params", false, "print the parameter names of every function or view under contract (key<TAB>names)")
 	flag.Parse()
 	t0 := time.Now()
 	e, err := vc.Load(*repo)
 	if err != nil {
 		fmt.Println("load:", err)
 		os.Exit(2)
+	}
+	if *paramsDump {
+		for _, l := range e.ParamTable() {
+			fmt.Println(l)
+		}
+		return
 	}
 	fmt.Printf("loaded in %.1fs, %d contracts\n", time.Since(t0).Seconds(), len(e.Specs.Contracts))
 	sc := vc.NewSolverCfg("/tmp/govc-obl", *timeout, 16)
